@@ -61,7 +61,7 @@ Proof.
 Qed.
 
 (* wf e: well-formed, lambda-free, every operand position readable *)
-Definition wf (e : expr) : Prop := validb e = true /\ nolamb e = true /\ posokb e = true.
+Definition wf (e : expr) : Prop := validb e = true /\ posokb e = true.
 
 Lemma un_ok_cases op : un_ok op = true ->
   op = xgo_ADD \/ op = xgo_SUB \/ op = xgo_NOT \/ op = xgo_XOR \/ op = xgo_AND \/ op = xgo_ARROW.
@@ -88,8 +88,8 @@ Proof.
   apply andb_prop in H as [H _]. apply andb_prop in H as [H _]. apply binop_prec in H. lia.
 Qed.
 (* for lambda-free trees the printer's level is the parser's level, except for "x ?: d" *)
-Lemma tlev_plev e : validb e = true -> nolamb e = true -> 6 <= tlev e -> 6 <= plev e.
-Proof. destruct e; cbn [tlev plev validb nolamb]; intros; try zl; discriminate. Qed.
+Lemma tlev_plev e : validb e = true -> 6 <= tlev e -> 6 <= plev e.
+Proof. destruct e; cbn [tlev plev validb]; intros; zl. Qed.
 Lemma tlev8_plev e : validb e = true -> 8 <= tlev e -> plev e = 8.
 Proof.
   destruct e; cbn [tlev plev validb]; intros H ?; try zl.
@@ -108,15 +108,16 @@ Definition stop0 (r : list tok) : bool := stop7 r && (hprec r <? 1) && negb (hd_
 Definition startok (ts : list tok) : bool :=
   match ts with
   | TId _ :: _ | TLit _ _ :: _ => true
-  | TOp z :: _ => negb (Z.eqb z xgo_RPAREN || Z.eqb z xgo_DRARROW || Z.eqb z xgo_COLON)
+  | TOp z :: _ => negb (Z.eqb z xgo_RPAREN || Z.eqb z xgo_COLON || Z.eqb z xgo_LBRACE)
   | [] => false
   end.
+Definition is_lam (e : expr) : bool := match e with ELam _ _ _ _ => true | _ => false end.
 Definition primstart (ts : list tok) : bool :=
   match ts with TId _ :: _ | TLit _ _ :: _ => true | TOp z :: _ => Z.eqb z xgo_LPAREN | [] => false end.
 
-Lemma pr_start e : validb e = true -> nolamb e = true -> forall r, startok (pr e ++ r) = true.
+Lemma pr_start e : validb e = true -> forall r, startok (pr e ++ r) = true.
 Proof.
-  induction e; cbn [validb nolamb]; intros V L r;
+  induction e; cbn [validb]; intros V r;
     repeat match goal with H : _ && _ = true |- _ => apply andb_prop in H as [? ?] end.
   - reflexivity.
   - reflexivity.
@@ -130,7 +131,7 @@ Proof.
   - rewrite pr_sel, <- app_assoc. unfold at_ at 1. destruct (plev e <? HighestPrec); [reflexivity|auto].
   - rewrite pr_ew, <- app_assoc. auto.
   - rewrite pr_ewd, <- app_assoc. auto.
-  - discriminate.
+  - destruct lp; [reflexivity|]. destruct lhs; reflexivity.
 Qed.
 
 Ltac bsplit := repeat match goal with H : _ && _ = true |- _ => apply andb_prop in H as [? ?] end.
@@ -138,10 +139,10 @@ Ltac bsplit := repeat match goal with H : _ && _ = true |- _ => apply andb_prop 
 Lemma ok_at_inv p req x : ok_at p req x = true -> (plev x <? p) = true \/ ((plev x <? p) = false /\ req <= tlev x).
 Proof. unfold ok_at. destruct (plev x <? p); cbn [orb]; intros H; [left; auto|right; split; auto; lia]. Qed.
 
-Lemma prim_start e : validb e = true -> nolamb e = true -> posokb e = true -> 8 <= tlev e ->
+Lemma prim_start e : validb e = true -> posokb e = true -> 8 <= tlev e ->
   forall r, primstart (pr e ++ r) = true.
 Proof.
-  induction e; cbn [validb nolamb posokb tlev]; intros V L K T r; bsplit; try (exfalso; zl).
+  induction e; cbn [validb posokb tlev]; intros V K T r; bsplit; try (exfalso; zl).
   - reflexivity.
   - reflexivity.
   - match goal with H : is_binop _ = true |- _ => apply binop_prec in H end. lia.
@@ -158,10 +159,40 @@ Proof.
 Qed.
 
 Lemma startok_heads ts : startok ts = true ->
-  hd_is xgo_RPAREN ts = false /\ hd_is xgo_DRARROW ts = false /\ hd_is xgo_COLON ts = false /\ ts <> [].
+  hd_is xgo_RPAREN ts = false /\ hd_is xgo_LBRACE ts = false /\ hd_is xgo_COLON ts = false /\ ts <> [].
 Proof.
   destruct ts as [|[s|k s|z] ts]; cbn [startok hd_is]; intros H; try discriminate; repeat split; try discriminate.
   all: apply negb_true_iff in H; repeat (apply orb_false_iff in H as [H ?]); auto.
+Qed.
+
+(* a tree that is not itself a lambda does not start with "=>" *)
+Lemma ok_not_lam p req x : ok_at p req x = true -> (plev x <? p) = false -> 1 <= req -> is_lam x = false.
+Proof.
+  intros H E R. apply ok_at_inv in H as [H|[_ H]]; [congruence|]. destruct x; try reflexivity. cbn [tlev] in H. lia.
+Qed.
+
+Lemma noarrow e : validb e = true -> posokb e = true -> is_lam e = false -> forall r, hd_is xgo_DRARROW (pr e ++ r) = false.
+Proof.
+  induction e; cbn [validb posokb is_lam]; intros V K L r; bsplit; try discriminate.
+  - reflexivity.
+  - reflexivity.
+  - rewrite pr_un. cbn [app hd_is].
+    destruct (un_ok_cases op) as [ -> | [ -> | [ -> | [ -> | [ -> | -> ] ] ] ] ]; auto; reflexivity.
+  - rewrite pr_star. reflexivity.
+  - match goal with B : is_binop _ = true |- _ => pose proof (binop_prec _ B) end.
+    rewrite pr_bin, <- app_assoc. unfold at_ at 1. destruct (plev e1 <? prec op) eqn:E; [reflexivity|].
+    apply IHe1; auto. eapply ok_not_lam; eauto. lia.
+  - rewrite pr_par. destruct e; try reflexivity. apply IHe; auto.
+  - rewrite pr_call, <- app_assoc. unfold at_ at 1. destruct (plev e <? HighestPrec) eqn:E; [reflexivity|].
+    apply IHe; auto. eapply ok_not_lam; eauto. lia.
+  - rewrite pr_idx, <- app_assoc. unfold at_ at 1. destruct (plev e1 <? HighestPrec) eqn:E; [reflexivity|].
+    apply IHe1; auto. eapply ok_not_lam; eauto. lia.
+  - rewrite pr_sel, <- app_assoc. unfold at_ at 1. destruct (plev e <? HighestPrec) eqn:E; [reflexivity|].
+    apply IHe; auto. eapply ok_not_lam; eauto. lia.
+  - rewrite pr_ew, <- app_assoc. apply IHe; auto. eapply (ok_not_lam LowestPrec 8); eauto; [|lia].
+    pose proof (plev_pos e ltac:(assumption)). apply Z.ltb_ge. zl.
+  - rewrite pr_ewd, <- app_assoc. apply IHe1; auto. eapply (ok_not_lam LowestPrec 8); eauto; [|lia].
+    pose proof (plev_pos e1 ltac:(assumption)). apply Z.ltb_ge. zl.
 Qed.
 
 Lemma stop0_rp r : stop0 (RP :: r) = true.
@@ -262,29 +293,29 @@ Proof.
 Qed.
 
 (* an expression in parentheses is a primary expression *)
-Lemma paren_PG e : validb e = true -> nolamb e = true -> E0 e ->
+Lemma paren_PG e : validb e = true -> E0 e ->
   forall atp r v r', (exists f, P f (SPrimLoop (EPar (norm e))) r = ROk v r') ->
   exists f, P f (SPrimary atp) (LP :: pr e ++ RP :: r) = ROk v r'.
 Proof.
-  intros V L HE atp r v r' [f2 H2].
+  intros V HE atp r v r' [f2 H2].
   destruct (HE (RP :: r) (stop0_rp r)) as [f1 H1].
   exists (S (S (f1 + f2))). rewrite unf_primary.
   up (f1 + f2)%nat H1. rewrite (operand_paren _ _ _ (norm e) r); [| apply pr_start; auto | exact H1].
   red_match. up (S (f1 + f2)) H2. exact H2.
 Qed.
 
-Lemma PG_paren e : validb e = true -> nolamb e = true -> E0 e -> (plev e <? HighestPrec) = true -> PG e.
+Lemma PG_paren e : validb e = true -> E0 e -> (plev e <? HighestPrec) = true -> PG e.
 Proof.
-  intros V L HE Hlt _ atp r v r' H. destruct (at_lt _ _ Hlt) as [-> E]. rewrite E in H.
+  intros V HE Hlt _ atp r v r' H. destruct (at_lt _ _ Hlt) as [-> E]. rewrite E in H.
   cbn [app]. rewrite <- app_assoc. cbn [app]. eapply paren_PG; eauto.
 Qed.
 
-Lemma at67 e r : validb e = true -> nolamb e = true -> posokb e = true ->
+Lemma at67 e r : validb e = true -> posokb e = true ->
   (plev e <? UnaryPrec) = true \/ 8 <= tlev e ->
   at_ UnaryPrec e = at_ HighestPrec e /\ nat_ UnaryPrec e = nat_ HighestPrec e /\
   primstart (at_ HighestPrec e ++ r) = true /\ ((plev e <? HighestPrec) = true \/ 8 <= tlev e).
 Proof.
-  intros V L K [H|H].
+  intros V K [H|H].
   - assert (H7 : (plev e <? HighestPrec) = true) by (apply Z.ltb_lt in H; apply Z.ltb_lt; zl).
     destruct (at_lt _ _ H) as [-> ->]. destruct (at_lt _ _ H7) as [-> ->]. repeat split; auto.
   - pose proof (tlev8_plev e V H) as E.
@@ -294,12 +325,12 @@ Proof.
     apply prim_start; auto.
 Qed.
 
-Lemma D_PU e : validb e = true -> nolamb e = true -> posokb e = true -> PG e ->
+Lemma D_PU e : validb e = true -> posokb e = true -> PG e ->
   (plev e <? UnaryPrec) = true \/ 8 <= tlev e ->
   forall atp r, stop7 r = true ->
   exists f, P f (SUnary atp) (at_ UnaryPrec e ++ r) = ROk (PE (nat_ UnaryPrec e)) r.
 Proof.
-  intros V L K HP A atp r Hs. destruct (at67 e r V L K A) as (-> & -> & Hst & Hpre).
+  intros V K HP A atp r Hs. destruct (at67 e r V K A) as (-> & -> & Hst & Hpre).
   destruct (HP Hpre atp r (PE (nat_ HighestPrec e)) r) as [f Hf].
   { exists 1%nat. now apply primloop_stop. }
   exists (S (S f)). rewrite unary_prim by exact Hst. cbn [P step]. rewrite Hf.
@@ -326,15 +357,15 @@ Proof.
   up (f1 + f2)%nat H2. exact H2.
 Qed.
 
-Lemma D_BE e : validb e = true -> nolamb e = true ->
+Lemma D_BE e : validb e = true -> posokb e = true -> is_lam e = false ->
   (forall atp r v r', lowfol 1 e r -> (exists f, P f (SBinLoop 1 (norm e)) r = ROk v r') ->
                       exists f, P f (SBinary 1 atp) (pr e ++ r) = ROk v r') -> E0 e.
 Proof.
-  intros V L H r Hs. apply stop0_inv in Hs as (H7 & Hp & Hd).
+  intros V K L H r Hs. apply stop0_inv in Hs as (H7 & Hp & Hd).
   destruct (H true r (PE (norm e)) r) as [f Hf].
   { split; auto. pose proof (plev_pos e V). lia. }
   { exists 1%nat. apply binloop_stop; lia. }
-  exists (S f). cbn [P step]. destruct (startok_heads _ (pr_start e V L r)) as (_ & -> & _).
+  exists (S f). cbn [P step]. rewrite (noarrow e V K L r).
   change (LowestPrec + 1) with 1. rewrite Hf, Hd. reflexivity.
 Qed.
 
@@ -367,14 +398,14 @@ Proof.
   exists (S f). ev. exact H.
 Qed.
 
-Lemma N_idx x i : PG x -> ok_at HighestPrec 8 x = true -> validb i = true -> nolamb i = true -> E0 i -> PG (EIdx x i).
+Lemma N_idx x i : PG x -> ok_at HighestPrec 8 x = true -> validb i = true -> E0 i -> PG (EIdx x i).
 Proof.
-  intros HX K V L HI _ atp r v r' [f H].
+  intros HX K V HI _ atp r v r' [f H].
   change (at_ HighestPrec (EIdx x i)) with (pr (EIdx x i)).
   change (nat_ HighestPrec (EIdx x i)) with (EIdx (nat_ HighestPrec x) (norm i)) in H.
   rewrite pr_idx, <- app_assoc. cbn [app]. rewrite <- app_assoc. cbn [app]. apply (HX (ok78 _ K)).
   destruct (HI (TOp xgo_RBRACK :: r) (stop0_rbrack r)) as [f1 H1].
-  exists (S (f + f1)). ev. destruct (startok_heads _ (pr_start i V L (TOp xgo_RBRACK :: r))) as (_ & _ & -> & _).
+  exists (S (f + f1)). ev. destruct (startok_heads _ (pr_start i V (TOp xgo_RBRACK :: r))) as (_ & _ & -> & _).
   up (f + f1)%nat H1. rewrite H1. ev. up (f + f1)%nat H. exact H.
 Qed.
 
@@ -395,9 +426,9 @@ Proof.
   exists (S f). destruct (ew_ok_cases t T) as [-> | ->]; ev; exact H.
 Qed.
 
-Lemma N_par x : validb x = true -> nolamb x = true -> PG x -> E0 x -> PG (EPar x).
+Lemma N_par x : validb x = true -> PG x -> E0 x -> PG (EPar x).
 Proof.
-  intros V L HP HE _ atp r v r' Hc.
+  intros V HP HE _ atp r v r' Hc.
   change (at_ HighestPrec (EPar x)) with (pr (EPar x)).
   change (nat_ HighestPrec (EPar x)) with (norm (EPar x)) in Hc.
   rewrite pr_par. rewrite norm_par in Hc.
@@ -432,7 +463,7 @@ Proof.
 Qed.
 
 Lemma args_loop fn ell : forall args acc r v r',
-  (forall a, In a args -> validb a = true /\ nolamb a = true /\ E0 a) ->
+  (forall a, In a args -> validb a = true /\ E0 a) ->
   (ell = true -> args <> []) ->
   (exists f, P f (SPrimLoop (ECall fn (acc ++ map norm args) ell)) r = ROk v r') ->
   exists f, P f (SArgs fn acc) (prl args ++ (if ell then [TOp xgo_ELLIPSIS; RP] else [RP]) ++ r) = ROk v r'.
@@ -440,15 +471,15 @@ Proof.
   induction args as [|a t IH]; intros acc r v r' HA Hell [f H].
   - destruct ell; [exfalso; now apply Hell|]. cbn [map] in H. rewrite app_nil_r in H.
     exists (S f). unfold prl, RP. ev. exact H.
-  - destruct (HA a (or_introl eq_refl)) as (Va & La & Ea).
+  - destruct (HA a (or_introl eq_refl)) as (Va & Ea).
     destruct t as [|b t'].
     + rewrite prl_one. cbn [map] in H.
       destruct ell; cbn [app].
       * destruct (Ea (TOp xgo_ELLIPSIS :: RP :: r) (stop0_ellipsis _)) as [f1 H1].
-        exists (S (f + f1)). up (f + f1)%nat H1. rewrite (sargs_ell _ _ _ _ _ _ (pr_start a Va La _) H1).
+        exists (S (f + f1)). up (f + f1)%nat H1. rewrite (sargs_ell _ _ _ _ _ _ (pr_start a Va _) H1).
         up (f + f1)%nat H. exact H.
       * destruct (Ea (RP :: r) (stop0_rp _)) as [f1 H1].
-        exists (S (f + f1)). up (f + f1)%nat H1. rewrite (sargs_rp _ _ _ _ _ _ (pr_start a Va La _) H1).
+        exists (S (f + f1)). up (f + f1)%nat H1. rewrite (sargs_rp _ _ _ _ _ _ (pr_start a Va _) H1).
         up (f + f1)%nat H. exact H.
     + rewrite prl_cons2, <- app_assoc. cbn [app].
       destruct (IH (acc ++ [norm a]) r v r') as [f2 H2].
@@ -456,12 +487,12 @@ Proof.
       { intros _. discriminate. }
       { exists f. rewrite <- app_assoc. exact H. }
       destruct (Ea (COMMA :: prl (b :: t') ++ (if ell then [TOp xgo_ELLIPSIS; RP] else [RP]) ++ r) (stop0_comma _)) as [f1 H1].
-      exists (S (f1 + f2)). up (f1 + f2)%nat H1. rewrite (sargs_comma _ _ _ _ _ _ (pr_start a Va La _) H1).
+      exists (S (f1 + f2)). up (f1 + f2)%nat H1. rewrite (sargs_comma _ _ _ _ _ _ (pr_start a Va _) H1).
       up (f1 + f2)%nat H2. exact H2.
 Qed.
 
 Lemma N_call fn args ell : PG fn -> ok_at HighestPrec 8 fn = true ->
-  (forall a, In a args -> validb a = true /\ nolamb a = true /\ E0 a) -> (ell = true -> args <> []) ->
+  (forall a, In a args -> validb a = true /\ E0 a) -> (ell = true -> args <> []) ->
   PG (ECall fn args ell).
 Proof.
   intros HF K HA Hell _ atp r v r' [f H].
@@ -485,32 +516,32 @@ Proof.
   destruct (un_ok_cases op O) as [ -> | [ -> | [ -> | [ -> | [ -> | -> ] ] ] ] ]; ev; rewrite Hf; reflexivity.
 Qed.
 
-Lemma ok06 x : validb x = true -> nolamb x = true -> ok_at LowestPrec UnaryPrec x = true ->
+Lemma ok06 x : validb x = true -> ok_at LowestPrec UnaryPrec x = true ->
   at_ UnaryPrec x = pr x /\ nat_ UnaryPrec x = norm x /\ UnaryPrec <= tlev x.
 Proof.
-  intros V L H. apply ok_at_inv in H as [H|[_ H]].
+  intros V H. apply ok_at_inv in H as [H|[_ H]].
   - pose proof (plev_pos x V). apply Z.ltb_lt in H. zl.
-  - pose proof (tlev_plev x V L H). destruct (at_ge UnaryPrec x) as [-> ->]; auto. apply Z.ltb_ge. zl.
+  - pose proof (tlev_plev x V H). destruct (at_ge UnaryPrec x) as [-> ->]; auto. apply Z.ltb_ge. zl.
 Qed.
 
-Lemma N_star x : UG x -> validb x = true -> nolamb x = true -> ok_at LowestPrec UnaryPrec x = true ->
+Lemma N_star x : UG x -> validb x = true -> ok_at LowestPrec UnaryPrec x = true ->
   forall atp r, stop7 r = true ->
   exists f, P f (SUnary atp) (pr (EStar x) ++ r) = ROk (PE (norm (EStar x))) r.
 Proof.
-  intros HX V L K atp r Hs. destruct (ok06 x V L K) as (Ea & En & T).
+  intros HX V K atp r Hs. destruct (ok06 x V K) as (Ea & En & T).
   destruct (HX (or_intror T) false r Hs) as [f Hf]. rewrite Ea, En in Hf.
   exists (S f). rewrite pr_star. cbn [app]. ev. rewrite Hf. reflexivity.
 Qed.
 
 Lemma N_ewd t x d : PG x -> UG d -> ew_ok t = true ->
-  validb x = true -> nolamb x = true -> posokb x = true -> validb d = true -> nolamb d = true ->
+  validb x = true -> posokb x = true -> validb d = true ->
   ok_at LowestPrec 8 x = true -> ok_at LowestPrec UnaryPrec d = true ->
   forall atp r, stop7 r = true ->
   exists f, P f (SUnary atp) (pr (EEwd t x d) ++ r) = ROk (PE (norm (EEwd t x d))) r.
 Proof.
-  intros HX HD T Vx Lx Kx Vd Ld K8 K6 atp r Hs.
+  intros HX HD T Vx Kx Vd K8 K6 atp r Hs.
   destruct (ok08 x Vx K8) as [E8 T8]. destruct (at7_prim x E8) as [Eax Enx].
-  destruct (ok06 d Vd Ld K6) as (Ead & End & Td).
+  destruct (ok06 d Vd K6) as (Ead & End & Td).
   destruct (HD (or_intror Td) false r Hs) as [f1 H1]. rewrite Ead, End in H1.
   destruct (HX (or_intror T8) atp (TOp t :: TOp xgo_COLON :: pr d ++ r) (PE (EEw t (norm x))) (TOp xgo_COLON :: pr d ++ r)) as [f2 H2].
   { exists 2%nat. rewrite Enx. destruct (ew_ok_cases t T) as [-> | ->]; reflexivity. }
@@ -540,13 +571,100 @@ Proof.
   up (f1 + f2)%nat H1. rewrite H1. red_match. rewrite norm_bin in H2. up (f1 + f2)%nat H2. exact H2.
 Qed.
 
+
+(* ------------------------------------------------------------------ lambda expressions *)
+Lemma pr_lam lhs lp rhs rp : pr (ELam lhs lp rhs rp) =
+  (if lp then LP :: match lhs with [] => [] | a :: t => TId a :: flat_map (fun s => [COMMA; TId s]) t end ++ [RP]
+   else match lhs with [] => [] | a :: _ => [TId a] end) ++
+  TOp xgo_DRARROW :: (if rp then LP :: prl rhs ++ [RP] else match rhs with a :: _ => pr a | [] => [] end).
+Proof. reflexivity. Qed.
+
+Lemma nolp e : validb e = true -> starts_lp e = false -> forall r, hd_is xgo_LPAREN (pr e ++ r) = false.
+Proof.
+  induction e; cbn [validb starts_lp]; intros V S r; bsplit; try discriminate.
+  - reflexivity.
+  - reflexivity.
+  - rewrite pr_un. cbn [app hd_is].
+    destruct (un_ok_cases op) as [ -> | [ -> | [ -> | [ -> | [ -> | -> ] ] ] ] ]; auto; reflexivity.
+  - rewrite pr_star. reflexivity.
+  - apply orb_false_iff in S as [S1 S2]. rewrite pr_bin, <- app_assoc. unfold at_ at 1. rewrite S1. auto.
+  - apply orb_false_iff in S as [S1 S2]. rewrite pr_call, <- app_assoc. unfold at_ at 1. rewrite S1. auto.
+  - apply orb_false_iff in S as [S1 S2]. rewrite pr_idx, <- app_assoc. unfold at_ at 1. rewrite S1. auto.
+  - apply orb_false_iff in S as [S1 S2]. rewrite pr_sel, <- app_assoc. unfold at_ at 1. rewrite S1. auto.
+  - rewrite pr_ew, <- app_assoc. auto.
+  - rewrite pr_ewd, <- app_assoc. auto.
+  - subst lp. rewrite pr_lam. destruct lhs; reflexivity.
+Qed.
+
+(* the "( e, e, ... )" result list *)
+Lemma lamrhs_loop : forall rhs acc r, rhs <> [] ->
+  (forall a, In a rhs -> validb a = true /\ E0 a) ->
+  exists f, P f (SLamRhs acc) (prl rhs ++ RP :: r) = ROk (PT (acc ++ map norm rhs) false) r.
+Proof.
+  induction rhs as [|a t IH]; intros acc r Hne HA; [congruence|].
+  destruct (HA a (or_introl eq_refl)) as (Va & Ea).
+  destruct t as [|b t'].
+  - rewrite prl_one. destruct (Ea (RP :: r) (stop0_rp _)) as [f1 H1].
+    exists (S f1). cbn [P step]. rewrite H1. unfold RP. ev. reflexivity.
+  - rewrite prl_cons2, <- app_assoc. cbn [app].
+    destruct (IH (acc ++ [norm a]) r) as [f2 H2]; [discriminate|intros x Hx; apply HA; now right|].
+    destruct (Ea (COMMA :: prl (b :: t') ++ RP :: r) (stop0_comma _)) as [f1 H1].
+    exists (S (f1 + f2)). cbn [P step]. up (f1 + f2)%nat H1. rewrite H1. unfold COMMA. ev.
+    up (f1 + f2)%nat H2. rewrite H2. rewrite <- app_assoc. reflexivity.
+Qed.
+
+Definition rhs_toks (rhs : list expr) (rp : bool) : list tok :=
+  if rp then LP :: prl rhs ++ [RP] else match rhs with a :: _ => pr a | [] => [] end.
+
+(* from "=>" on *)
+Lemma lam_tail x lhs lp rhs rp r : lam_lhs x = Some (lhs, lp) ->
+  rhs <> [] -> (rp = false -> length rhs = 1%nat) ->
+  (forall a, In a rhs -> validb a = true /\ E0 a) ->
+  (rp = false -> match rhs with a :: _ => starts_lp a = false | [] => True end) ->
+  stop0 r = true ->
+  exists f, P f (SLam x) (TOp xgo_DRARROW :: rhs_toks rhs rp ++ r) = ROk (PE (ELam lhs lp (map norm rhs) rp)) r.
+Proof.
+  intros HL Hne Hlen HA Hs Hr. unfold rhs_toks. destruct rp.
+  - destruct (lamrhs_loop rhs [] r Hne HA) as [f Hf]. exists (S f).
+    cbn [app]. rewrite <- app_assoc. cbn [app]. cbn [P step]. unfold LP. cbn [hd_is tl]. eqbs. rewrite Hf, HL. reflexivity.
+  - specialize (Hlen eq_refl). destruct rhs as [|a [|b t]]; cbn [length] in Hlen; try discriminate. clear Hlen.
+    destruct (HA a (or_introl eq_refl)) as (Va & Ea). specialize (Hs eq_refl).
+    destruct (Ea r Hr) as [f Hf]. exists (S f). cbn [P step].
+    destruct (startok_heads _ (pr_start a Va r)) as (_ & -> & _). rewrite (nolp a Va Hs r), Hf, HL. reflexivity.
+Qed.
+
+Lemma idents_map l : idents (map EId l) = Some l.
+Proof. induction l as [|a l IH]; cbn [map idents]; [reflexivity|]. now rewrite IH. Qed.
+
+(* the identifiers of "(x, y, ...)" after the first *)
+Lemma tuple_loop : forall t acc r, (forall s, E0 (EId s)) ->
+  exists f, P f (STuple acc) (flat_map (fun s => [COMMA; TId s]) t ++ RP :: r) = ROk (PT (acc ++ map EId t) false) r.
+Proof.
+  induction t as [|s t IH]; intros acc r HI.
+  - exists 1%nat. cbn [flat_map app map]. rewrite app_nil_r. unfold RP. ev. reflexivity.
+  - cbn [flat_map app]. destruct (IH (acc ++ [EId s]) r HI) as [f2 H2].
+    assert (St : stop0 (flat_map (fun s => [COMMA; TId s]) t ++ RP :: r) = true).
+    { destruct t; cbn [flat_map app]; [apply stop0_rp|apply stop0_comma]. }
+    destruct (HI s _ St) as [f1 H1]. change (pr (EId s)) with [TId s] in H1. cbn [app] in H1. change (norm (EId s)) with (EId s) in H1.
+    exists (S (f1 + f2)). up (f1 + f2)%nat H1. up (f1 + f2)%nat H2. unfold COMMA in *. ev. rewrite H1, H2.
+    cbn [map]. rewrite <- app_assoc. reflexivity.
+Qed.
+
+(* a tuple travels up from parseOperand to parseBinaryExpr unchanged *)
+Lemma tuple_up f p1 ts items ell r : P f (SOperand true) (LP :: ts) = ROk (PT items ell) r ->
+  P (S (S (S (S f)))) (SBinary p1 true) (LP :: ts) = ROk (PT items ell) r.
+Proof.
+  intros H. rewrite unf_binary, unary_prim by reflexivity. cbn [P step]. rewrite H. reflexivity.
+Qed.
+
 (* ------------------------------------------------------------------ all levels, by size *)
 Definition All (e : expr) : Prop := PG e /\ UG e /\ BG e /\ E0 e.
 
 (* a primary expression: from its native level to all levels *)
-Lemma from_PG e : validb e = true -> nolamb e = true -> posokb e = true -> plev e = 8 -> 8 <= tlev e -> PG e -> All e.
+Lemma from_PG e : validb e = true -> posokb e = true -> plev e = 8 -> 8 <= tlev e -> PG e -> All e.
 Proof.
-  intros V L K P8 T8 HP.
+  intros V K P8 T8 HP.
+  assert (L : is_lam e = false) by (destruct e; try reflexivity; cbn [tlev] in T8; lia).
   assert (HU : UG e). { intros _. apply D_PU; auto. }
   assert (HB : BG e).
   { intros p1 q atp r v r' Hp Hq _ [Hs _] Hc. eapply D_UB; eauto. right. zl. }
@@ -558,11 +676,12 @@ Proof.
 Qed.
 
 (* a unary-level expression (prefix operator, star, "x ?: d") *)
-Lemma from_UG e : validb e = true -> nolamb e = true -> posokb e = true ->
+Lemma from_UG e : validb e = true -> posokb e = true ->
   UnaryPrec <= plev e -> UnaryPrec <= tlev e < 8 ->
   (forall atp r, stop7 r = true -> exists f, P f (SUnary atp) (pr e ++ r) = ROk (PE (norm e)) r) -> All e.
 Proof.
-  intros V L K P6 T6 HN.
+  intros V K P6 T6 HN.
+  assert (L : is_lam e = false) by (destruct e; try reflexivity; cbn [tlev] in T6; zl).
   destruct (at_ge UnaryPrec e) as [Ea6 En6]; [apply Z.ltb_ge; lia|].
   assert (HU : UG e). { intros _ atp r Hs. rewrite Ea6, En6. auto. }
   assert (HB : BG e).
@@ -578,12 +697,13 @@ Qed.
 
 (* a binary expression *)
 Lemma from_BG op x y : let e := EBin op x y in
-  validb e = true -> nolamb e = true -> posokb e = true -> is_binop op = true ->
+  validb e = true -> posokb e = true -> is_binop op = true ->
   (forall p1 q atp r v r', 1 <= p1 <= q -> q <= prec op -> lowfol q e r ->
      (exists f, P f (SBinLoop p1 (norm e)) r = ROk v r') ->
      exists f, P f (SBinary p1 atp) (pr e ++ r) = ROk v r') -> All e.
 Proof.
-  intros e V L K B HN. pose proof (binop_prec op B) as Hk.
+  intros e V K B HN. pose proof (binop_prec op B) as Hk.
+  assert (L : is_lam e = false) by reflexivity.
   assert (PL : plev e = prec op) by reflexivity.
   assert (HE : E0 e).
   { apply D_BE; auto. intros atp r v r' Hl Hc. apply (HN 1 1); auto; lia. }
@@ -601,12 +721,98 @@ Qed.
 Lemma forallb_In {A} (f : A -> bool) l x : forallb f l = true -> In x l -> f x = true.
 Proof. intros H. rewrite forallb_forall in H. auto. Qed.
 
-Theorem all_levels : forall n e, (sz e <= n)%nat -> validb e = true -> nolamb e = true -> posokb e = true -> All e.
+Lemma All_id s : All (EId s).
+Proof. apply from_PG; try reflexivity; try (cbn [tlev]; lia). apply N_id. Qed.
+Lemma All_par_id s : All (EPar (EId s)).
 Proof.
-  induction n as [|n IH]; intros e Hs V L K. { destruct e; cbn [sz] in Hs; lia. }
-  destruct e; cbn [sz] in Hs; pose proof V as V0; pose proof L as L0; pose proof K as K0;
-    cbn [validb nolamb posokb] in V, L, K; bsplit.
-  - (* EId *) apply from_PG; auto; try reflexivity; try (cbn [tlev]; lia). apply N_id.
+  destruct (All_id s) as (HP & _ & _ & HE).
+  apply from_PG; try reflexivity; try (cbn [tlev]; lia). apply N_par; auto.
+Qed.
+
+Lemma sexpr_lam f ts v r' : hd_is xgo_DRARROW ts = false -> P f (SBinary 1 true) ts = ROk v r' ->
+  hd_is xgo_DRARROW r' = true -> P (S f) SExpr ts = P f (SLam (Some v)) r'.
+Proof. intros H1 H2 H3. cbn [P step]. change (LowestPrec + 1) with 1. rewrite H1, H2, H3. reflexivity. Qed.
+
+Lemma arrow_follow rest : stop7 (TOp xgo_DRARROW :: rest) = true /\ hprec (TOp xgo_DRARROW :: rest) < 1.
+Proof. split; [reflexivity|]. cbn [hprec]. rewrite arrow_prec. lia. Qed.
+
+(* a lambda expression, from its result expressions *)
+Lemma N_lam lhs lp rhs rp : validb (ELam lhs lp rhs rp) = true -> posokb (ELam lhs lp rhs rp) = true ->
+  (forall a, In a rhs -> validb a = true /\ E0 a) -> E0 (ELam lhs lp rhs rp).
+Proof.
+  intros V K HA r Hr. cbn [validb posokb] in V, K. bsplit.
+  assert (Hne : rhs <> []) by (destruct rhs; [discriminate|discriminate]).
+  assert (Hlen : rp = false -> length rhs = 1%nat).
+  { intros ->. match goal with H : false || _ = true |- _ => cbn [orb] in H; now apply Nat.eqb_eq in H end. }
+  assert (Hs : rp = false -> match rhs with a :: _ => starts_lp a = false | [] => True end).
+  { intros ->. match goal with H : false || negb _ = true |- _ => cbn [orb] in H; apply negb_true_iff in H end.
+    destruct rhs; auto. }
+  change (norm (ELam lhs lp rhs rp)) with (ELam lhs lp (map norm rhs) rp).
+  rewrite pr_lam, <- app_assoc. cbn [app]. fold (rhs_toks rhs rp).
+  set (rest := rhs_toks rhs rp ++ r).
+  destruct (arrow_follow rest) as [A7 Ap].
+  destruct lp.
+  - destruct lhs as [|s1 [|s2 t]].
+    + (* () => ... *)
+      destruct (lam_tail (Some (PT [] false)) [] true rhs rp r eq_refl Hne Hlen HA Hs Hr) as [f Hqf]. fold rest in Hqf.
+      exists (S (5 + f)). cbn [app].
+      rewrite (sexpr_lam _ _ (PT [] false) (TOp xgo_DRARROW :: rest)); [|reflexivity| |reflexivity].
+      * up (5 + f)%nat Hqf. exact Hqf.
+      * apply (P_mono_le 5); [lia|]. apply (tuple_up 1 1). reflexivity.
+    + (* (x) => ... *)
+      destruct (lam_tail (Some (PE (EPar (EId s1)))) [s1] true rhs rp r eq_refl Hne Hlen HA Hs Hr) as [f Hqf]. fold rest in Hqf.
+      destruct (All_par_id s1) as (_ & _ & HB & _).
+      destruct (HB 1 1 true (TOp xgo_DRARROW :: rest) (PE (EPar (EId s1))) (TOp xgo_DRARROW :: rest)) as [f1 Hq1];
+        [lia|zl|reflexivity|split; [exact A7|intros; cbn [plev] in *; zl]| |].
+      { exists 1%nat. apply binloop_stop; [lia|exact Ap]. }
+      change (at_ 1 (EPar (EId s1)) ++ TOp xgo_DRARROW :: rest) with (LP :: TId s1 :: RP :: TOp xgo_DRARROW :: rest) in Hq1.
+      exists (S (f + f1)). cbn [app].
+      rewrite (sexpr_lam _ _ (PE (EPar (EId s1))) (TOp xgo_DRARROW :: rest)); [|reflexivity| |reflexivity].
+      * up (f + f1)%nat Hqf. exact Hqf.
+      * up (f + f1)%nat Hq1. exact Hq1.
+    + (* (x, y, ...) => ... *)
+      destruct (lam_tail (Some (PT (map EId (s1 :: s2 :: t)) false)) (s1 :: s2 :: t) true rhs rp r) as [f Hqf]; auto.
+      { cbn [lam_lhs]. now rewrite idents_map. }
+      fold rest in Hqf.
+      destruct (tuple_loop (s2 :: t) [EId s1] (TOp xgo_DRARROW :: rest) (fun s => proj2 (proj2 (proj2 (All_id s))))) as [f2 Hq2].
+      destruct (All_id s1) as (_ & _ & _ & HE1).
+      destruct (HE1 (flat_map (fun s => [COMMA; TId s]) (s2 :: t) ++ RP :: TOp xgo_DRARROW :: rest)) as [f1 Hq1].
+      { cbn [flat_map app]. apply stop0_comma. }
+      change (pr (EId s1)) with [TId s1] in Hq1. change (norm (EId s1)) with (EId s1) in Hq1. cbn [app] in Hq1.
+      assert (HO : P (S (f1 + f2)) (SOperand true) (LP :: TId s1 :: flat_map (fun s => [COMMA; TId s]) (s2 :: t) ++ RP :: TOp xgo_DRARROW :: rest)
+                   = ROk (PT (map EId (s1 :: s2 :: t)) false) (TOp xgo_DRARROW :: rest)).
+      { up (f1 + f2)%nat Hq1. up (f1 + f2)%nat Hq2. unfold LP. cbn [P step hd_is]. eqbs. cbn [andb]. rewrite Hq1.
+        cbn [flat_map app hd_is]. unfold COMMA at 1. eqbs. cbn [orb andb].
+        exact Hq2. }
+      apply (tuple_up _ 1) in HO.
+      exists (S (f + (4 + S (f1 + f2)))). cbn [app]. rewrite <- app_assoc. cbn [app].
+      rewrite (sexpr_lam _ _ (PT (map EId (s1 :: s2 :: t)) false) (TOp xgo_DRARROW :: rest)); [|reflexivity| |reflexivity].
+      * up (f + (4 + S (f1 + f2)))%nat Hqf. exact Hqf.
+      * eapply P_mono_le; [|exact HO]. lia.
+  - destruct lhs as [|s [|s' t]].
+    + (* => ... *)
+      destruct (lam_tail None [] false rhs rp r eq_refl Hne Hlen HA Hs Hr) as [f Hqf]. fold rest in Hqf.
+      exists (S f). cbn [app P step hd_is]. eqbs. exact Hqf.
+    + (* x => ... *)
+      destruct (lam_tail (Some (PE (EId s))) [s] false rhs rp r eq_refl Hne Hlen HA Hs Hr) as [f Hqf]. fold rest in Hqf.
+      destruct (All_id s) as (_ & _ & HB & _).
+      destruct (HB 1 1 true (TOp xgo_DRARROW :: rest) (PE (EId s)) (TOp xgo_DRARROW :: rest)) as [f1 Hq1];
+        [lia|zl|reflexivity|split; [exact A7|intros; cbn [plev] in *; zl]| |].
+      { exists 1%nat. apply binloop_stop; [lia|exact Ap]. }
+      change (at_ 1 (EId s) ++ TOp xgo_DRARROW :: rest) with (TId s :: TOp xgo_DRARROW :: rest) in Hq1.
+      exists (S (f + f1)). cbn [app].
+      rewrite (sexpr_lam _ _ (PE (EId s)) (TOp xgo_DRARROW :: rest)); [|reflexivity| |reflexivity].
+      * up (f + f1)%nat Hqf. exact Hqf.
+      * up (f + f1)%nat Hq1. exact Hq1.
+    + exfalso. match goal with H : false || _ = true |- _ => cbn [orb length] in H; discriminate H end.
+Qed.
+
+Theorem all_levels : forall n e, (sz e <= n)%nat -> validb e = true -> posokb e = true -> All e.
+Proof.
+  induction n as [|n IH]; intros e Hs V K. { destruct e; cbn [sz] in Hs; lia. }
+  destruct e; cbn [sz] in Hs; pose proof V as V0; pose proof K as K0;
+    cbn [validb posokb] in V, K; bsplit.
+  - (* EId *) apply All_id.
   - (* ELit *) apply from_PG; auto; try reflexivity; try (cbn [tlev]; lia). apply N_lit.
   - (* EUn *) destruct (IH e) as (_ & HU & _); auto; try lia.
     apply from_UG; auto; try (cbn [plev tlev]; zl). intros. now apply N_un.
@@ -623,7 +829,6 @@ Proof.
     apply N_call; auto.
     + intros a Ha. pose proof (In_szl a args Ha). unfold szl in *.
       assert (Va : validb a = true) by (eapply forallb_In; eauto).
-      assert (La : nolamb a = true) by (eapply forallb_In; eauto).
       assert (Ka : posokb a = true) by (eapply forallb_In; eauto).
       destruct (IH a) as (_ & _ & _ & HEa); auto; lia.
     + intros ->. match goal with H : negb true || negb (is_nil args) = true |- _ => destruct args; [discriminate H|discriminate] end.
@@ -637,14 +842,24 @@ Proof.
   - (* EEwd *) destruct (IH e1) as (HP1 & _); auto; try lia.
     destruct (IH e2) as (_ & HU2 & _); auto; try lia.
     apply from_UG; auto; try (cbn [plev tlev]; zl). intros. now apply N_ewd.
-  - discriminate.
+  - (* ELam: only the expression level is meaningful; the operand levels are excluded by their preconditions *)
+    assert (HE : E0 (ELam lhs lp rhs rp)).
+    { apply N_lam; auto. intros a Ha. pose proof (In_szl a rhs Ha). unfold szl in *.
+      assert (Va : validb a = true) by (eapply forallb_In; eauto).
+      assert (Ka : posokb a = true) by (eapply forallb_In; eauto).
+      destruct (IH a) as (_ & _ & _ & HEa); auto; lia. }
+    repeat split; auto.
+    + intros [Hx|Hx]; [discriminate Hx|cbn [tlev] in Hx; lia].
+    + intros [Hx|Hx]; [discriminate Hx|cbn [tlev] in Hx; zl].
+    + intros p1 q atp r v r' Hp Hq Hok. exfalso. unfold ok_at in Hok. cbn [plev tlev] in Hok.
+      apply orb_true_iff in Hok as [Hx|Hx]; [apply Z.ltb_lt in Hx; zl|apply Z.leb_le in Hx; lia].
 Qed.
 
 (* ------------------------------------------------------------------ the round trip *)
-Theorem roundtrip_exists e : validb e = true -> nolamb e = true -> posokb e = true ->
+Theorem roundtrip_exists e : validb e = true -> posokb e = true ->
   exists f, P f SExpr (pr e) = ROk (PE (norm e)) [].
 Proof.
-  intros V L K. destruct (all_levels (sz e) e (le_n _) V L K) as (_ & _ & _ & HE).
+  intros V K. destruct (all_levels (sz e) e (le_n _) V K) as (_ & _ & _ & HE).
   destruct (HE [] eq_refl) as [f Hf]. rewrite app_nil_r in Hf. eauto.
 Qed.
 
@@ -792,10 +1007,10 @@ Proof.
   - rewrite (P_stable f' f); auto.
 Qed.
 
-Theorem roundtrip e : validb e = true -> nolamb e = true -> posokb e = true ->
+Theorem roundtrip e : validb e = true -> posokb e = true ->
   exists f, parse_expr f (pr e) = ROk (PE (norm e)) [].
 Proof.
-  intros V L K. destruct (roundtrip_exists e V L K) as [f Hf]. exists f. unfold parse_expr. rewrite Hf. reflexivity.
+  intros V K. destruct (roundtrip_exists e V K) as [f Hf]. exists f. unfold parse_expr. rewrite Hf. reflexivity.
 Qed.
 
 (* a witness computed with one amount of fuel decides the question for every amount *)
